@@ -351,6 +351,28 @@ func (p *idxProver) lowerBound(v ssa.Value, at ssa.Instruction) (int64, bool) {
 	if isRangeIndex(v) {
 		up(0)
 	}
+	// induction variable: phi of constants and of itself plus a non-negative step
+	if ph, ok := v.(*ssa.Phi); ok {
+		lo, okAll, n := int64(0), true, 0
+		for _, e := range ph.Edges {
+			if c, okc := constInt(e); okc {
+				if n == 0 || c < lo {
+					lo = c
+				}
+				n++
+				continue
+			}
+			if b, isB := e.(*ssa.BinOp); isB && b.Op == token.ADD && b.X == ssa.Value(ph) {
+				if st, okc := constInt(b.Y); okc && st >= 0 {
+					continue
+				}
+			}
+			okAll = false
+		}
+		if okAll && n > 0 {
+			up(lo)
+		}
+	}
 	for _, f := range condFacts(at) {
 		b, ok := f.Cond.(*ssa.BinOp)
 		if !ok {
@@ -507,8 +529,12 @@ func submatchResult(v ssa.Value) (*ssa.Call, bool) {
 	return nil, false
 }
 
-// elemOfSubmatch: v == ss[k] (loaded) with ss a FindAll*Submatch result.
+// elemOfSubmatch: v == ss[k] (loaded) with ss a FindAll*Submatch result, or v is
+// the result of FindStringSubmatch itself (one match: 1+NumSubexp entries, nil when no match).
 func elemOfSubmatch(v ssa.Value) (*ssa.Call, bool) {
+	if c, ok := v.(*ssa.Call); ok && (calleeName(c) == "(*regexp.Regexp).FindStringSubmatch" || calleeName(c) == "(*regexp.Regexp).FindSubmatch") {
+		return c, true
+	}
 	ld, ok := v.(*ssa.UnOp)
 	if !ok || ld.Op != token.MUL {
 		return nil, false
@@ -553,8 +579,18 @@ var trustedRules = []trustedRule{
 			if !okc || lo != 1 {
 				return false
 			}
-			_, isSub := elemOfSubmatch(sl.X)
-			return isSub
+			sub, isSub := elemOfSubmatch(sl.X)
+			if !isSub {
+				return false
+			}
+			if sub == sl.X {
+				// direct FindStringSubmatch result is nil when nothing matched: a length/nil test must dominate
+				return p.minLen(sl.X, ob.in) >= 1 || factHolds(ob.in, func(cond ssa.Value, truth bool) bool {
+					is, pol := nonNilTest(cond, sl.X)
+					return is && pol == truth
+				})
+			}
+			return true
 		}},
 	{"i-th submatch has an i-th name",
 		"registration invariant C02-GROUPS: every compiled route pattern satisfies NumSubexp() == len(matches) (checked on every store to Route.regex), and a submatch slice has 1+NumSubexp entries",
@@ -996,6 +1032,13 @@ func (p *idxProver) collect(f *ssa.Function) []idxOb {
 				}
 				if !okM && mapMadeInConstructor(p.w, lf) {
 					okM = true
+				}
+				if !okM {
+					// the write happens only where the field was tested non-nil
+					okM = factHolds(in, func(cond ssa.Value, truth bool) bool {
+						b, okb := cond.(*ssa.BinOp)
+						return okb && isLoadOfField(b.X, lf) && isNilConst(b.Y) && ((b.Op == token.NEQ && truth) || (b.Op == token.EQL && !truth))
+					})
 				}
 				out = append(out, idxOb{fn: f, in: in, kind: "mapwrite", construct: key("mapwrite", lf.Name()), ok: okM, detail: map[bool]string{true: "the map is created before it is written (nil test + make, or constructor)", false: "write to a map field that may still be nil"}[okM]})
 			}
